@@ -546,6 +546,11 @@ class J1939_22:
         segment_num   = (data[4]  & 0xFF) | ((data[5]  & 0xFF) << 8) | ((data[6] & 0xFF)  << 16)
         pgn           = (data[9] & 0xFF)  | ((data[10] & 0xFF) << 8) | ((data[11] & 0xFF) << 16)
 
+        if (dest_address == ParameterGroupNumber.Address.GLOBAL) and (control_byte not in (self.TpControlType.BAM, self.TpControlType.EOM_STATUS)):
+            # connection-mode flow control is destination specific: nobody holds the global
+            # address, an answer would carry it as its source address
+            return
+
         if control_byte == self.TpControlType.RTS:
             buffer_hash   = self._buffer_hash(session_num, src_address, dest_address)
             num_segments = data[7] # Maximum number of segments that can be sent in response to one CTS.
